@@ -9,7 +9,9 @@ Record obuf := { odata : list N; ofin : bool }.
 Record outq := { bufs : list obuf; rpos : nat; popped : list (list N); delivered : list N }.
 Definition outq0 : outq := {| bufs := []; rpos := 0; popped := []; delivered := [] |}.
 
-Inductive op := Get | Write (i : nat) (bs : list N) | Finish (i : nat) | Read (n : nat).
+(** [Reinit] is lzma_outq_init() on a queue that is in use (a coder re-initialised
+    on the same lzma_stream): every buffer is dropped and a new epoch starts. *)
+Inductive op := Get | Write (i : nat) (bs : list N) | Finish (i : nat) | Read (n : nat) | Reinit.
 
 Fixpoint upd {A} (l : list A) (i : nat) (f : A -> A) : list A :=
   match l, i with
@@ -37,6 +39,7 @@ Definition step (q : outq) (o : op) : outq :=
         then {| bufs := t; rpos := 0; popped := popped q ++ [odata h]; delivered := delivered q ++ got |}
         else {| bufs := h :: t; rpos := rp; popped := popped q; delivered := delivered q ++ got |}
       end
+  | Reinit => outq0
   end.
 
 Definition run (ops : list op) : outq := fold_left step ops outq0.
